@@ -35,6 +35,9 @@ CHECKS = [
  chk('C11', 'reference-model differential for next/prev_transition + chain symmetry',
      'next/prev at T-1,T,T+1 of every table entry vs the model\'s nearest real change (no-ops, big-bang entry, isdst-only/abbr-only changes, twin types generated on purpose); from/to vs lookup(); forward chain from min() equals reversed backward chain from max().',
      ZN + ' The point where rule-generated transitions stop being reported is documented as unspecified and treated so.', 'DESIGN.md §5 C11'),
+ chk('C12', 'coverage-guided libFuzzer (ASan+UBSan) with in-target oracle + rapidcheck structure-aware TZif mutations + init-pattern differential',
+     'arbitrary bytes served through a custom ZoneInfoSource: sanitizer/assert clean, terminates (per-input alarm, hangs confirmed by 3 timed replays), failed loads leave UTC, same bytes loaded twice give the same outcome and the same fingerprint over a probe panel; corpus + mutants re-run through -ftrivial-auto-var-init=pattern vs =zero builds whose outputs must agree.',
+     'Sanitizers decide memory safety/UB for the executions that ran; libFuzzer campaigns are only approximately reproducible (saved artifacts are the reproducible unit). Inputs declaring > 128 KiB of data are skipped and counted.', 'DESIGN.md §5 C12'),
  chk('C14', 'hint-state enumeration + rapidcheck call sequences against a fresh copy + cache model with counting data source',
      'every table interval is made the remembered hint before each probe (both directions) and answers compared with the history-free model; generated call sequences answered in order vs a fresh copy in reverse order; generated load() sequences checked against a name-cache model.',
      ZN, 'DESIGN.md §5 C14'),
@@ -54,6 +57,9 @@ CHECKS = [
      '12 duration types x rep values at second boundaries / representation limits / uniform x zones x 0-18 digits: lookup, convert, '
      'format whole and fractional fields; parse into every panel type incl. range failure for narrow representations.',
      'Trusts refcal.h; panel of types is finite (listed in the rule).', 'DESIGN.md §5 C18'),
+ chk('C16', 'rapidcheck grammar sentences + mutants and libFuzzer byte strings vs an independent POSIX-TZ parser',
+     'acceptance and every result field (abbreviations, offsets with inverted sign, +1h default, dates, 02:00 default) compared with posixref; each string parsed twice into differently pre-filled result structs (determined by the string alone); exact-capacity heap copies make over-reads past the terminator visible to ASan.',
+     'posixref.h encodes the grammar as stated in the property (abbreviation = <...> or >= 3 non-digit/sign/comma chars; any digit count with value in range).', 'DESIGN.md §5 C16'),
  chk('C17', 'exhaustive enumeration + rapidcheck-generated windows vs 128-bit reference calendar',
      'Every day of a 400-year window (146097 days) x 7 weekdays is enumerated for each window; windows cover the '
      'int64 year extremes, negative years and rapidcheck-generated start years. Exhaustive per window, sampled over windows.',
